@@ -8,6 +8,8 @@ import tlc
 import att
 
 ASSUME = [
+    "an attacher's 'not a circuit' answers rotate through objects of either truth value (a string, 0, '', [], False, {}, 7, ()): "
+    "all are invalid answers - reported, nothing sent",
     "the via-circuit API (Circuit.stream_via / TorCircuitEndpoint) and a user-installed attacher are not mixed, and the module-wide "
     "via-circuit attacher is not removed by the user (documented as an error in set_attacher)",
     "a BUILT circuit used by a pending via-circuit connection stays BUILT until the connection's stream has appeared; a connection "
